@@ -134,7 +134,8 @@ def run_group(g, prop, use_cache=True):
     if g.object_bits:
         cb += ["--object-bits", str(g.object_bits)]
     cb += g.extra_cbmc + ["--drop-unused-functions", "--json-ui"]
-    key = hashlib.sha256(json.dumps([g.c_text, cc and cc[1:-2], gi and gi[1:-2], [x for x in cb[1:] if x != src and not x.endswith(".gb")], toolver()],
+    strip = lambda c: c and [x for x in c[1:] if x != src and not x.endswith(".gb") and x != "-o"]
+    key = hashlib.sha256(json.dumps([g.c_text, strip(cc), strip(gi), strip(cb), toolver()],
                                     sort_keys=True).encode()).hexdigest()
     cpath = os.path.join(CACHE, key + ".json")
     res = {"group": g.name, "solver": g.solver, "bounded": g.bounded, "functions": g.functions,
